@@ -229,7 +229,7 @@ Section Round.
               (mkS (addkids (add_child P F) l :: fs) dr (L - 1)%Z (Some CLOSEPAR) false) k.
   Proof.
     induction l as [|[e ch] r IH]; intros HF F P fs dr L p pe k HL.
-    - simpl. apply steps_one. apply step_close.
+    - simpl. apply steps_one. apply step_close. exact HL.
     - inversion HF; subst. simpl in H1.
       cbn [NewickCanon.joinF].
       replace ((("," ++ write_node ch ++ deco e ch ++ joinF false r) ++ String ")" k))
